@@ -480,7 +480,14 @@ impl EventGen for Tag {
             }
             Tag::Leaf(el, tail) => {
                 let mut el = el.clone();
-                context.apply_defaults(&mut el);
+                // defaults are for what gets drawn: on a control element their attributes
+                // would turn into variable assignments, loop parameters, ...
+                if !matches!(
+                    el.name.as_str(),
+                    "var" | "config" | "defaults" | "specs" | "loop" | "for" | "if" | "reuse"
+                ) {
+                    context.apply_defaults(&mut el);
+                }
                 let (ev, bb) = el.generate_events(context)?;
                 (events, bbox) = (ev, bb);
                 if let (Some(tail), false) = (tail, events.is_empty()) {
